@@ -152,10 +152,57 @@ def translate_method(fn):
     return Cmd(fn.name, params, msg, init, rest), optional
 
 
+def simple_const(val):
+    """A module-level value that may be read as if it were written in place: a numeric / string literal or APIVersion(i, j)."""
+    if isinstance(val, ast.Constant) and type(val.value) in (int, float, str):
+        return True
+    return isinstance(val, ast.Call) and isinstance(val.func, ast.Name) and val.func.id == "APIVersion" and not val.keywords \
+        and len(val.args) == 2 and all(isinstance(a, ast.Constant) and type(a.value) is int for a in val.args)
+
+
+class InlineConsts(ast.NodeTransformer):
+    """Module-level names bound exactly once to a simple constant are replaced by that constant inside the command methods
+    (a maintainer hoisting `APIVersion(1, 1)` or `1000` out of a method changes nothing the grammar cares about)."""
+    def __init__(self, consts):
+        self.consts = consts
+
+    def visit_Name(self, node):
+        if isinstance(node.ctx, ast.Load) and node.id in self.consts:
+            return ast.copy_location(ast.parse(ast.unparse(self.consts[node.id]), mode="eval").body, node)
+        return node
+
+
+def module_simple_consts(tree):
+    seen, consts = {}, {}
+    for node in tree.body:
+        tgt = None
+        if isinstance(node, ast.Assign) and len(node.targets) == 1 and isinstance(node.targets[0], ast.Name):
+            tgt, val = node.targets[0].id, node.value
+        elif isinstance(node, ast.AnnAssign) and isinstance(node.target, ast.Name) and node.value is not None:
+            tgt, val = node.target.id, node.value
+        if tgt is None:
+            continue
+        seen[tgt] = seen.get(tgt, 0) + 1
+        if simple_const(val):
+            consts[tgt] = val
+    return {k: v for k, v in consts.items() if seen[k] == 1}
+
+
 def extract():
     tree = ast.parse((PKG / "client.py").read_text())
     cls = next(n for n in tree.body if isinstance(n, ast.ClassDef) and n.name == "APIClient")
-    methods = {n.name: n for n in cls.body if isinstance(n, ast.FunctionDef)}
+    consts = module_simple_consts(tree)
+    methods = {}
+    for n in cls.body:
+        if isinstance(n, ast.FunctionDef):
+            local = {a.arg for a in n.args.args + n.args.kwonlyargs}
+            for x in ast.walk(n):
+                if isinstance(x, ast.Name) and isinstance(x.ctx, (ast.Store, ast.Del)):
+                    local.add(x.id)
+                elif isinstance(x, (ast.Global, ast.Nonlocal)):
+                    local.update(x.names)
+            usable = {k: v for k, v in consts.items() if k not in local}
+            methods[n.name] = ast.fix_missing_locations(InlineConsts(usable).visit(n)) if n.name.endswith("_command") else n
     found = [n for n in methods if n.endswith("_command")]
     if sorted(found) != sorted(COMMANDS):
         raise TranslationError(f"command methods changed: {sorted(set(found) ^ set(COMMANDS))}")
